@@ -98,6 +98,14 @@ func main() {
 			die(2, "replay needs a file")
 		}
 		os.Exit(replay(os.Args[2]))
+	case "resolve":
+		if len(os.Args) < 3 {
+			die(2, "resolve needs one or more replay files")
+		}
+		b := prepare()
+		for _, f := range os.Args[2:] {
+			resolveReplay(b, f)
+		}
 	case "build":
 		b := prepare()
 		fmt.Println("harness:", b.bin)
@@ -681,8 +689,10 @@ func check(id, tier string, nworkers, runsOverride int, budgetOverride float64, 
 		job := map[string]interface{}{"property": id, "tier": tier, "seed": seed, "replay": path, "out": filepath.Join(work, "replay.json")}
 		wr, log, err := runWorker(b, job, filepath.Join(work, "replayjob.json"), watchdog)
 		if crashViolation {
-			// already confirmed in a fresh process when it was found
+			// already confirmed in a fresh process when it was found; keep
+			// the generated case in the file
 			_ = log
+			resolveReplay(b, path)
 		} else if err != nil || wr == nil || !wr.ReplayOK {
 			msg := ""
 			if wr != nil {
@@ -794,6 +804,47 @@ func replayCorpus(b *built, id, tier string, seed uint64, work string, known []k
 	wg.Wait()
 	sort.Slice(bad, func(i, j int) bool { return bad[i].path < bad[j].path })
 	return n, nKnown, bad
+}
+
+// resolveReplay stores the generated case inside a regenerating replay file
+// (one that names only property, seed and run because the run killed its
+// process), so that the file keeps its meaning when the generator changes.
+func resolveReplay(b *built, path string) {
+	rb, err := os.ReadFile(path)
+	if err != nil {
+		die(2, "%v", err)
+	}
+	var rp map[string]json.RawMessage
+	if err := json.Unmarshal(rb, &rp); err != nil {
+		die(2, "%s: %v", path, err)
+	}
+	if string(rp["regen"]) != "true" || (len(rp["case"]) > 0 && string(rp["case"]) != "null") {
+		return
+	}
+	var hd struct {
+		Property string `json:"property"`
+		Tier     string `json:"tier"`
+		Seed     uint64 `json:"seed"`
+		Run      int    `json:"run"`
+	}
+	json.Unmarshal(rb, &hd)
+	work := filepath.Join(verifDir, ".work", fmt.Sprintf("resolve-%d", os.Getpid()))
+	os.MkdirAll(work, 0o755)
+	defer os.RemoveAll(work)
+	job := map[string]interface{}{"property": hd.Property, "tier": hd.Tier, "seed": hd.Seed, "dump_run": hd.Run, "out": filepath.Join(work, "dump.json")}
+	wr, log, err := runWorker(b, job, filepath.Join(work, "dump.job"), 10*time.Minute)
+	if err != nil || wr == nil || len(wr.Samples) != 1 {
+		fmt.Fprintln(os.Stderr, log)
+		die(2, "%s: cannot generate the case of run %d: %v", path, hd.Run, err)
+	}
+	rp["case"] = wr.Samples[0]
+	out, _ := json.Marshal(rp)
+	var pretty bytes.Buffer
+	json.Indent(&pretty, out, "", " ")
+	if err := os.WriteFile(path, pretty.Bytes(), 0o644); err != nil {
+		die(2, "%v", err)
+	}
+	fmt.Printf("resolved %s (run %d)\n", path, hd.Run)
 }
 
 func firstLineOf(s string) string {
